@@ -85,7 +85,7 @@ PROPS = {
         "outside": ["the builder refusing at compile time to quantify a non-Clone value (a fact about rustc's type checker)", "real threads racing for the value"],
     },
     "C13": {
-        "mirsym": ["delegators"],
+        "mirsym": ["delegators", "chain_schedules"],
         "bounds": {"quick": "value chain: 2 shared pushes (type of the second symbolic), exclusive push after a shared one followed by a shared one, drop of chains of 0..2 values; thorough: 3 shared pushes; delegation helper accessors as_ref/as_mut: arbitrary instance, helper cell symbolically empty or filled"},
         "assumptions": COMMON_KANI + COMMON_MIR + ["once_cell::sync::OnceCell replaced (cfg(kani) only) by once_cell's own unsync cell behind the same API (Kani cannot compile the std implementation): single-threaded claim"],
         "outside": ["thousands of values (bound: 3)", "concurrent pushes through a shared &Unimock (the cell library is trusted)", "recursive drop of very long chains in push_value_mut (observation in DESIGN section 6)"],
@@ -104,7 +104,7 @@ PROPS = {
         "outside": ["return types outside the family; element counts above 3; nesting depth above 3"],
     },
     "C10": {
-        "mirsym": ["schedules", "call_path"],
+        "mirsym": ["schedules", "call_path", "chain_schedules"],
         "bounds": {"quick": "symbolic schedule (one decision per atomic step) of threads x calls in {2x2, 3x1, 3x2} unordered and {2x2, 3x1} ordered on one shared pattern; thorough: up to 4x2 / 3x3, cross-checked with cvc5",
                    "thorough": "threads x calls in {2x2, 2x3, 3x2, 4x2, 3x3}, both call kinds, z3 and cvc5 must agree"},
         "assumptions": COMMON_MIR + ["sequentially consistent memory (the code uses SeqCst); each atomic operation / lock-protected block is one indivisible step",
